@@ -187,19 +187,21 @@ AREAS["C12"] = {'area': 'c12',
                  'nested groups are matched to the depth the generator produces (5); protobuf-go skips groups recursively without a depth limit']}
 
 AREAS["C02"] = {
-    "area": "c02", "id": 2,
+    "area": "c02", "id": 2, "known_soft_only": True,
     "coq": ["Base", "Store", "Sync", "Properties/C02.v"],
     "rule": "two real instances (embedded NATS + store each) linked by the real client.SyncClient (period 1 s) driven without a manager; histories: a tree built from the downstream "
             "side with the link up, then either more two-sided writes with the link up or an outage (sync disabled) with writes on both sides (node points on shared identities, "
-            "edge points, nodes created on either side, a child deleted downstream or upstream) followed by catch-up; after every link-up phase the harness waits until both dumps of "
+            "edge points, nodes created on either side, a child deleted downstream or upstream, 1 history in 12 the same point written to two different nodes on opposite sides) followed by catch-up; after every link-up phase the harness waits until both dumps of "
             "the device tree are unchanged for 2.4 s (at least 3.5 s, at most 45 s) and a history whose last phase did not converge is re-run once from fresh instances; a history is "
             "non-trivial when it has more than one phase; distinct by (kind, number of requests, number of nodes)",
     "trusted": STORE_TRUSTED + ["model of syncNode / sendNodesRemote / sendNodesLocal / SendNode over two store models: coq/theories/Sync/Model.v (hand-written; its catch-up from the two "
                                 "dumps taken at the end of an outage must reproduce the two dumps observed after the link came back)"],
     "assumptions": STORE_ASSUME + ["during an outage each side writes only to nodes that exist on that side (points for a node without an edge are not visible in a dump)",
-                                   "XOR-of-CRC-32 hash equality is taken as content equality (docs/ref/sync.md accepts collisions)",
+                                   "a difference that remains after catch-up is coded separately (bit 4, finding equal-hash-different-content) exactly when the model's blind_only holds on the two real dumps: all stored hashes are the "
+                                   "correct Merkle hashes of the dumped content and every differing placement lies below a pair of equal compared hashes; any other remaining difference is a violation",
                                    "NATS reconnection, timer races and the goroutines of the sync client are not modelled: catch-up is modelled as a sequence of syncNode passes with no concurrent writes"],
-    "level_text": "proof (partial): C02_exchange_join (the two comparison loops leave both sides with the identity-wise newest point of either side, for all point lists) and its corollaries "
+    "level_text": "proof (partial): C02_exchange_join (the two comparison loops leave both sides with the identity-wise newest point of either side, for all point lists), its store-level corollaries, "
+                  "C02_no_revert_node/edge, C02_equal_hash_is_a_fixpoint and C02_convergence_refuted (the full convergence statement is false of the faithful model: equal XOR hashes over different content) "
                   "are Coq theorems; the recursive catch-up (hash short-cut, descent into children, transfer of nodes missing on one side) is an executable model validated on every run "
                   "against two real linked instances, and the convergence / no-lost-write specification is evaluated on the real dumps",
     "level_note": "partial: convergence of the whole recursion is established by correspondence on generated histories, not by a theorem; link-level behaviour (reconnects, timers, "
